@@ -267,8 +267,3 @@ def run(ctx):
 
 def search(ctx, disagreements):
     return C12.search(ctx, disagreements)
-
-
-def replay(payload):
-    print(payload.get("case"))
-    return 0
